@@ -10,7 +10,9 @@ with tempfile.TemporaryDirectory() as d:
     xml = os.path.join(d, "j.xml")
     env = dict(os.environ)
     env.pop("POORWSGI_VERIF", None)
-    p = subprocess.run(["/venv/bin/python", "-m", "pytest", "-ra", "-q", "-p", "no:cacheprovider",
+    # the integrity tests bind a fixed port: serialise with any other run of the suite on this machine
+    lock = ["flock", "/tmp/wt/suite.lock"] if os.path.isdir("/tmp/wt") else []
+    p = subprocess.run(lock + ["/venv/bin/python", "-m", "pytest", "-ra", "-q", "-p", "no:cacheprovider",
                         "--timeout=900", "--continue-on-collection-errors", "--junitxml=" + xml],
                        cwd=repo, capture_output=True, text=True, env=env)
     passed = set()
